@@ -311,14 +311,30 @@ def preemption_costs(s):
     return costs
 
 
-def explore(tmpl, n, bound, acc, cond, expected, before, report):
+def explore(tmpl, n, bound, acc, cond, expected, before, report, part=(0, 1)):
+    """Depth-first over schedule prefixes.  part=(k, K) explores the k-th of K slices of the search tree: every slice runs
+    the root schedule, then keeps every K-th of the root's alternatives (slice 0 also accounts for the root itself)."""
     stack = [[]]
     nexec = 0
     st, tr = set(), set()
+    root = True
     while stack:
         prefix = stack.pop()
         report(nexec)
         s = run_one(tmpl, prefix, n, bool(cond.get("cursor")), bool(cond.get("tmproot")))
+        if root and part[0] != 0:
+            # another slice accounts for the root schedule; here it only yields this slice's share of the alternatives
+            root = False
+            costs = preemption_costs(s)
+            alts = []
+            for i in range(len(s.points)):
+                order, last, states, label = s.points[i]
+                running_enabled = last is not None and order[0] == last and states[0] == "ready"
+                for alt in range(1, len(order)):
+                    if costs[i] + (1 if running_enabled else 0) <= bound:
+                        alts.append(s.choices[:i] + [alt])
+            stack.extend(a for j, a in enumerate(alts) if j % part[1] == part[0])
+            continue
         nexec += 1
         acc.case()
         case = {"condition": cond["name"], "workers": n, "schedule": list(s.choices),
@@ -349,6 +365,7 @@ def explore(tmpl, n, bound, acc, cond, expected, before, report):
             acc.violation("database_in_wal_mode", case, s.journal_mode, "wal")
         acc.count("blocked_retries", s.blocked_retries)
         costs = preemption_costs(s)
+        alts = []
         for i in range(len(prefix), len(s.points)):
             order, last, states, label = s.points[i]
             running_enabled = last is not None and order[0] == last and states[0] == "ready"
@@ -356,7 +373,11 @@ def explore(tmpl, n, bound, acc, cond, expected, before, report):
                 cost = costs[i] + (1 if running_enabled else 0)
                 if cost > bound:
                     continue
-                stack.append(s.choices[:i] + [alt])
+                alts.append(s.choices[:i] + [alt])
+        if root:
+            root = False
+            alts = [a for j, a in enumerate(alts) if j % part[1] == part[0]]
+        stack.extend(alts)
         if nexec % 500 == 1:
             acc.sample(case)
     return nexec, st, tr
@@ -364,7 +385,8 @@ def explore(tmpl, n, bound, acc, cond, expected, before, report):
 
 def work(payload, skip, report):
     acc = Acc(PROP)
-    cond, n, bound = payload
+    cond, n, bound = payload[:3]
+    part = tuple(payload[3]) if len(payload) > 3 else (0, 1)
     install()
     tmpl = scratch_dir("c20t")
     try:
@@ -382,7 +404,7 @@ def work(payload, skip, report):
                           "the stored pages")
             return acc
         before = [r for r in s1.final_table if r[0] != "Module:_sandbox_phase1"] if not cond["bootstrap"] else s1.final_table
-        nexec, st, tr = explore(tmpl, n, bound, acc, cond, expected, before, report)
+        nexec, st, tr = explore(tmpl, n, bound, acc, cond, expected, before, report, part)
         acc.sets["states"] |= st
         acc.sets["transitions"] |= tr
         acc.count("schedules:%s:n%d:b%d" % (cond["name"], n, bound), nexec)
@@ -464,8 +486,9 @@ def main(run):
         chunks.append((cond, 2, 2))
     if not q:
         for cond in CONDITIONS:
-            chunks.append((cond, 2, 3))
-            chunks.append((cond, 3, 2))
+            for k in range(8):     # eight slices of each search tree (see explore)
+                chunks.append((cond, 2, 3, (k, 8)))
+                chunks.append((cond, 3, 2, (k, 8)))
     for cid, acc, hung in run_chunks(work, chunks, nproc=run.nproc, case_timeout=120):
         run.acc.merge(acc)
     states = len(run.acc.sets.pop("states", ()))
